@@ -220,6 +220,10 @@ def atomic_assign(prog, rep):
             rep.ok("atomic-assign", f"{fq}: any exception restores the saved list and is re-raised", nontrivial=True)
         elif not tr.handlers:
             rep.fail("atomic-assign", mod, fq, tr, "try without except", construct=f"{fq} handlers")
+        rebinds = [x for st_ in body for x in ast.walk(st_) if isinstance(x, ast.Assign) and any(is_self_attr(t, attr, sn) for t in x.targets)
+                   and x is not reset[0] and not any(x is y for h in tr.handlers for b_ in h.body for y in ast.walk(b_))]
+        for x in rebinds:
+            rep.fail("atomic-assign", mod, fq, x, f"after the elements were validated the list is rebound to `{norm(x.value)}`: the block keeps the caller's (another block's) list object instead of its own fresh list")
         if tr.finalbody and any(is_self_attr(t, attr, sn) for s in tr.finalbody for x in ast.walk(s) if isinstance(x, ast.Assign) for t in x.targets):
             rep.fail("atomic-assign", mod, fq, tr.finalbody[0], "a finally clause rewrites the list on the success path too")
     rep.floor("atomic-assign", n, 2)
